@@ -19,7 +19,13 @@ run_cmd do
     if n.isInternal then continue
     match ci with
     | .thmInfo _ =>
-      if let some p := propOf n then rows := rows.push (p, n)
+      -- skip the equation / induction lemmas Lean generates for the helper definitions of the property files
+      let last := match n with | .str _ s => s | _ => ""
+      let auto := last.startsWith "eq_" || last.startsWith "match_" || last.startsWith "_" ||
+        ["induct", "induct_unfolding", "fun_cases", "fun_cases_unfolding", "mutual_induct", "sizeOf_spec",
+         "injEq", "inj", "noConfusion"].contains last
+      if !auto then
+        if let some p := propOf n then rows := rows.push (p, n)
     | _ => pure ()
   let sorted := rows.qsort (fun a b => a.2.toString < b.2.toString)
   for (p, n) in sorted do
